@@ -405,6 +405,90 @@ def restore_rule(ctx: Ctx, rule: str) -> None:
         ctx.note(f'{rule}: no resample is handed to the engine any more')
 
 
+_MUTATORS = {'append', 'extend', 'insert', 'remove', 'pop', 'clear', 'sort', 'reverse', 'add', 'discard', 'update', '__setitem__', '__delitem__', '__iadd__'}
+
+
+def _stores(tree: ast.AST, text: str) -> list[ast.expr | None]:
+    """the values stored under the name / attribute chain `text` in tree (None for a store whose value is not one expression: a tuple target, a loop
+    variable, an augmented assignment, ...)"""
+    out: list[ast.expr | None] = []
+    for a in ast.walk(tree):
+        if isinstance(a, ast.Assign) and len(a.targets) == 1 and unparse(a.targets[0]) == text:
+            out.append(a.value)
+        elif isinstance(a, ast.AnnAssign) and unparse(a.target) == text:
+            if a.value is not None:
+                out.append(a.value)
+        elif isinstance(a, (ast.Name, ast.Attribute)) and not isinstance(a.ctx, ast.Load) and unparse(a) == text:
+            out.append(None)
+    # (the targets of the plain assignments above are counted twice: once with their value, once as a bare store)
+    plain = sum(1 for v in out if v is not None)
+    bare = sum(1 for v in out if v is None)
+    return [v for v in out if v is not None] + [None] * (bare - plain)
+
+
+def _mutated(tree: ast.AST, text: str) -> bool:
+    """some statement of tree changes the object named `text` in place (a mutating method, a store or deletion of an item)"""
+    for a in ast.walk(tree):
+        if isinstance(a, ast.Attribute) and a.attr in _MUTATORS and unparse(a.value) == text:
+            return True
+        if isinstance(a, ast.Subscript) and not isinstance(a.ctx, ast.Load) and unparse(a.value) == text:
+            return True
+    return False
+
+
+def _spellings(prog, module, fn: ast.AST | None, expr: ast.expr | None, depth: int = 0) -> list[str] | None:
+    """the strings of a list of names, written out: a literal list / tuple / set of strings (an element may be an attribute of the instance set once, in fn, to a
+    string), through single-definition locals, a module constant assigned once and never changed in place, an attribute of the instance stored once in fn,
+    .copy(), list(), tuple(), sorted(), set() and + of two such lists.  None when the elements are not established."""
+    if expr is None or depth > 6:
+        return None
+    e = inline_locals(fn, expr) if fn is not None else expr
+    if isinstance(e, (ast.List, ast.Tuple, ast.Set)):
+        out = []
+        for x in e.elts:
+            if isinstance(x, ast.Attribute) and isinstance(x.value, ast.Name) and x.value.id == 'self' and fn is not None:
+                st = _stores(fn, unparse(x))
+                x = inline_locals(fn, st[0]) if len(st) == 1 and st[0] is not None else x
+            if not (isinstance(x, ast.Constant) and isinstance(x.value, str)):
+                return None
+            out.append(x.value)
+        return out
+    if isinstance(e, ast.Call) and not e.keywords and not any(isinstance(a, ast.Starred) for a in e.args):
+        if isinstance(e.func, ast.Name) and e.func.id in ('list', 'tuple', 'sorted', 'set', 'frozenset') and len(e.args) == 1:
+            if fn is not None and _stores(fn, e.func.id):
+                return None
+            return _spellings(prog, module, fn, e.args[0], depth + 1)
+        if isinstance(e.func, ast.Attribute) and e.func.attr == 'copy' and not e.args:
+            return _spellings(prog, module, fn, e.func.value, depth + 1)
+        return None
+    if isinstance(e, ast.BinOp) and isinstance(e.op, ast.Add):
+        l, r = _spellings(prog, module, fn, e.left, depth + 1), _spellings(prog, module, fn, e.right, depth + 1)
+        return None if l is None or r is None else l + r
+    if isinstance(e, ast.Attribute) and isinstance(e.value, ast.Name) and e.value.id == 'self' and fn is not None:
+        st = _stores(fn, unparse(e))
+        if len(st) != 1 or st[0] is None or _mutated(fn, unparse(e)):
+            return None
+        return _spellings(prog, module, fn, st[0], depth + 1)
+    if isinstance(e, ast.Name):
+        if fn is not None:
+            a = fn.args
+            if _stores(fn, e.id) or e.id in {x.arg for x in a.posonlyargs + a.args + a.kwonlyargs + [y for y in (a.vararg, a.kwarg) if y]}:
+                return None  # (a local the normal form does not resolve, a parameter)
+        r = prog.resolve_name(module, e.id)
+        if not r or r[0] != 'value':
+            return None
+        m = r[1]
+        # (the name under which the constant is imported may differ from the name it has where it is defined)
+        own = [k for k, v in m.assigns.items() if v is r[2]]
+        if len(own) != 1:
+            return None
+        st = _stores(m.tree, own[0])
+        if len(st) != 1 or st[0] is not r[2] or _mutated(m.tree, own[0]):
+            return None
+        return _spellings(prog, m, None, r[2], depth + 1)
+    return None
+
+
 def _roles(ctx: Ctx) -> None:
     """which formula of the dictionary is the log likelihood and which is the weight"""
     from ..core import const_value
@@ -417,11 +501,10 @@ def _roles(ctx: Ctx) -> None:
     init = B.methods['__init__']
     lists = {}
     for a in walk_no_nested(init.node):
-        if isinstance(a, ast.Assign) and unparse(a.targets[0]) in ('self.log_like_valid_names', 'self.weight_valid_names'):
-            try:
-                lists[unparse(a.targets[0])] = [const_value(e) for e in inline_locals(init.node, a.value).elts]  # (the list may be written out in a local first)
-            except Exception:
-                lists[unparse(a.targets[0])] = None
+        for t_ in (a.targets if isinstance(a, ast.Assign) else [a.target] if isinstance(a, ast.AnnAssign) and a.value is not None else []):
+            if unparse(t_) in ('self.log_like_valid_names', 'self.weight_valid_names'):
+                # (the list may be written out in a local or a module constant first, and copied)
+                lists[unparse(t_)] = _spellings(prog, init.module, init.node, t_)
     ll, ww = lists.get('self.log_like_valid_names'), lists.get('self.weight_valid_names')
     ok = ll is not None and ww is not None and set(ll) == {'log_like', 'loglike'} and set(ww) == {'weight', 'weights'}
     ctx.add('C04.R5', 'BIOGEME.__init__:names', ok, init, f'log likelihood: {ll}; weight: {ww}' if ok else f'documented spellings changed or overlap: log likelihood {ll}, weight {ww}', f'{ll}/{ww}')
@@ -443,12 +526,18 @@ def _roles(ctx: Ctx) -> None:
             if not okc and same_object and det.get('dict_of_formulas') == 'formulas' and set(det) == {'dict_of_formulas', 'valid_keywords'}:
                 okc = True
         wrong = None
-        # (what the attribute holds, written out: handing over the same list under another spelling is not handing over another list)
-        held = {unparse(inline_locals(init.node, a_.value)) for a_ in walk_no_nested(init.node) if isinstance(a_, (ast.Assign, ast.AnnAssign)) and getattr(a_, 'value', None) is not None
-                and any(unparse(t_) == names for t_ in (a_.targets if isinstance(a_, ast.Assign) else [a_.target]))}
-        if not okc and len(calls) == 1 and isinstance(det, dict) and det.get('dict_of_formulas') == 'formulas' and 'valid_keywords' in det and names not in det['valid_keywords'] and det['valid_keywords'] not in held:
-            # the keywords handed over are not made from the list of documented spellings at all
-            wrong = f'{attr} is looked up under {det["valid_keywords"]} only, not under all of {names}: a formula given under another documented spelling is ignored'
+        # what the list handed over and the list of the attribute hold, element by element (through locals, module constants, copies)
+        kw_ = bound.get('valid_keywords') if len(calls) == 1 else None
+        handed = _spellings(prog, init.module, init.node, kw_) if kw_ is not None else None
+        held = _spellings(prog, init.module, init.node, ast.parse(names, mode='eval').body)
+        plain = len(calls) == 1 and isinstance(det, dict) and det.get('dict_of_formulas') == 'formulas' and set(det) == {'dict_of_formulas', 'valid_keywords'}
+        if not okc and plain and handed is not None and held is not None and set(handed) == set(held):
+            # (the same spellings under another name: get_expression tries every one of them and refuses two at once, their order does not count)
+            okc = True
+        if not okc and plain and handed is not None and held is not None and set(held) - set(handed):
+            # a documented spelling is not among the keywords handed over
+            wrong = (f'{attr} is looked up under {handed} only ({det["valid_keywords"]}), not under all of {names} = {held}: a formula given under '
+                     f'{sorted(set(held) - set(handed))} is ignored')
         elif not calls:
             single = [a for a in walk_no_nested(init.node) if isinstance(a, ast.Assign) and unparse(a.targets[0]) == attr and re.fullmatch(r'(self\.)?formulas(\.get\(.+\)|\[.+\])', unparse(a.value))]
             # (a key that is the variable of a loop over the spellings is every spelling in turn)
